@@ -16,46 +16,50 @@ CONSTANTS Descs      \* the cases explored (set of descriptors)
 
 VARIABLES case,      \* the descriptor of the packet under test (chosen initially)
           phase,     \* "init", "built", "packed", "parsed", "done"
-          pkt,       \* the abstract stack
+          pkt,       \* the abstract stack as the caller builds it
+          fill,      \* the same with every derived field (lengths, checksums) filled in
           wire,      \* its serialisation
           dec,       \* the parse result
           last, hist
-vars == <<case, phase, pkt, wire, dec, last, hist>>
-view == <<case, phase, pkt, wire, dec, last>>
+vars == <<case, phase, pkt, fill, wire, dec, last, hist>>
+\* `last`/`hist` are observations: properties about them are action properties
+view == <<case, phase, pkt, fill, wire, dec>>
 
 NoObs == [a |-> "Init", args |-> [x |-> 0], exp |-> [x |-> 0]]
-Init == case \in Descs /\ phase = "init" /\ pkt = <<>> /\ wire = <<>> /\ dec = <<>> /\ last = NoObs /\ hist = <<>>
+Init == /\ case \in Descs /\ phase = "init" /\ pkt = <<>> /\ fill = <<>> /\ wire = <<>> /\ dec = <<>>
+        /\ last = NoObs /\ hist = <<>>
 Log(a, args, exp) ==
   /\ last' = [a |-> a, args |-> args, exp |-> exp]
   /\ hist' = Append(hist, [a |-> a, args |-> args, exp |-> exp])
 
-\* the header chain a caller sees after parsing: derived fields filled in,
-\* opaque payload kept as given
-ViewOf(s) == Norm(FillStack(s))
-
 Build ==
   /\ phase = "init" /\ phase' = "built"
-  /\ pkt' = Stack(case) /\ UNCHANGED <<case, wire, dec>>
+  /\ pkt' = Stack(case) /\ UNCHANGED <<case, fill, wire, dec>>
   /\ Log("Build", [pkt |-> pkt', d |-> case], [ok |-> TRUE])
 
 Pack ==
   /\ phase = "built" /\ phase' = "packed"
-  /\ wire' = EncStack(pkt) /\ UNCHANGED <<case, pkt, dec>>
+  /\ LET a == Asm(pkt, 1) IN wire' = a.b /\ fill' = a.v
+  /\ UNCHANGED <<case, pkt, dec>>
   /\ Log("Pack", [x |-> 0], Split(wire', PayLen(pkt)))
 
 Feed ==
   /\ phase = "init" /\ phase' = "packed"
-  /\ pkt' = Stack(case) /\ wire' = EncStack(pkt') /\ UNCHANGED <<case, dec>>
+  /\ pkt' = Stack(case)
+  /\ LET a == Asm(pkt', 1) IN wire' = a.b /\ fill' = a.v
+  /\ UNCHANGED <<case, dec>>
   /\ Log("Feed", [pkt |-> pkt', d |-> case, wire |-> Split(wire', PayLen(pkt'))], [ok |-> TRUE])
 
+\* the header chain a caller sees after parsing: derived fields filled in,
+\* opaque payload kept as given
 Parse ==
   /\ phase = "packed" /\ phase' = "parsed"
-  /\ dec' = ParseStack(wire) /\ UNCHANGED <<case, pkt, wire>>
-  /\ Log("Parse", [x |-> 0], [view |-> ViewOf(pkt)])
+  /\ dec' = ParseStack(wire) /\ UNCHANGED <<case, pkt, fill, wire>>
+  /\ Log("Parse", [x |-> 0], [view |-> Norm(fill)])
 
 Repack ==
   /\ phase = "parsed" /\ phase' = "done"
-  /\ UNCHANGED <<case, pkt, wire, dec>>
+  /\ UNCHANGED <<case, pkt, fill, wire, dec>>
   /\ Log("Repack", [x |-> 0], Split(EncStack(dec), PayLen(pkt)))
 
 Next == Build \/ Feed \/ Pack \/ Parse \/ Repack
@@ -65,11 +69,11 @@ Spec == Init /\ [][Next]_vars
 (* The property, over the real variables                                    *)
 
 TypeOK == /\ phase \in {"init", "built", "packed", "parsed", "done"}
-          /\ IsBytes(wire)
-          /\ StackOK(pkt)
+          /\ phase = "built" => StackOK(pkt)
+          /\ phase = "packed" => IsBytes(wire) /\ StackOK(fill)
 
 \* emitted length fields and checksums are right (checked from the bytes)
-LengthsAndChecksumsOK == phase \in {"packed", "parsed", "done"} => WireOK(pkt)
+LengthsAndChecksumsOK == phase = "packed" => WireOK(fill, wire)
 
 \* the two definitions of the Internet checksum agree on every frame and on
 \* the frame without its last byte (odd and even lengths)
@@ -78,20 +82,20 @@ ChecksumDefsAgree ==
                       /\ Len(wire) > 0 => Csum(Take(wire, Len(wire) - 1)) = CsumB(Take(wire, Len(wire) - 1))
 
 \* parsing yields equal header fields and payload
-ParseRecovers == phase \in {"parsed", "done"} => Norm(dec) = Norm(Expand(FillStack(pkt)))
+ParseRecovers == phase = "parsed" => Norm(dec) = Norm(Expand(fill))
 
 \* serialising the parse result reproduces the same bytes; so does
-\* serialising the completed stack
+\* serialising the completed stack (derived fields are recomputed, not trusted)
 ReserialiseSame ==
-  /\ phase \in {"parsed", "done"} => EncStack(dec) = wire
-  /\ phase = "packed" => EncStack(FillStack(pkt)) = wire
+  /\ phase = "parsed" => EncStack(dec) = wire
+  /\ phase = "packed" => EncStack(fill) = wire
 
-\* what the actions promised is what the state holds
+\* what the actions promise is what the state holds
 ObservationsOK ==
-  /\ last.a \in {"Pack", "Repack"} =>
-       /\ last.exp.hdr = Take(wire, Len(wire) - PayLen(pkt))
-       /\ last.exp.pay = PayLen(pkt)
-  /\ last.a = "Parse" => last.exp.view = Norm(FillStack(pkt))
+  [][/\ last'.a \in {"Pack", "Repack"} =>
+          /\ last'.exp.hdr = Take(wire', Len(wire') - PayLen(pkt'))
+          /\ last'.exp.pay = PayLen(pkt')
+     /\ last'.a = "Parse" => Norm(Expand(last'.exp.view)) = Norm(dec')]_vars
 
 \* ---- export for the replay harness
 Done   == phase = "done"
